@@ -301,3 +301,50 @@ def check(cx):
                            "map is persisted with the catalog row" % (g.name, short))
         if n9 == 0:
             cx.bad(r9, "no-shifting-edit", "", "no position-shifting edit of Schema.columns found (DROP COLUMN gone?)")
+
+    # ---- C15.10 catalog rows are rewritten from a fresh read ---------------------------------------------------------------
+    r10 = cx.rule("C15.10", "FLOW: every Catalog::update_relation(.., Some(schema), ..) issued by the DDL executor writes a schema that comes from a "
+                  "Relation read from the catalog in the same function (get_relation / get_relation_by_name), never from a Relation "
+                  "handed in by the caller: within one statement earlier steps register indexes and constraints in the stored row, and a "
+                  "stale copy written back erases them", floor=2)
+    UPD = CAT + "::update_relation"
+    READS = (CAT + "::get_relation", CAT + "::get_relation_by_name")
+    n10 = 0
+    for c in K.sites(p, UPD):
+        f = c.fn
+        if c.callee != UPD or not (f.root or f.id).startswith(DDL + "::"):
+            continue
+        l = op_local(c.args[3]) if len(c.args) > 3 else None
+        if l is None:
+            continue
+        # the Some(schema) operand: walk schema producers (schema()/into_schema()/clone()) back to the Relation they were taken from
+        seen_l, work, origins = set(), [l], set()
+        while work:
+            x = work.pop()
+            if x in seen_l:
+                continue
+            seen_l.add(x)
+            for kind, what in f.nearest_calls(x):
+                if kind == "param":
+                    origins.add(("param", what))
+                elif kind == "call":
+                    if what in READS:
+                        origins.add(("read", what.rsplit("::", 1)[-1]))
+                    elif what.rsplit("::", 1)[-1] in ("schema", "into_schema", "schema_mut", "clone", "to_owned"):
+                        for cc in f.calls():
+                            if cc.callee == what and cc.dst and cc.args and (cc.dst[0] in seen_l or cc.dst[0] in f.dep_closure(x) or True):
+                                a0 = op_local(cc.args[0])
+                                if a0 is not None and cc.dst[0] in (f.dep_closure(l) | {l}):
+                                    work.append(a0)
+                    else:
+                        origins.add(("call", what.rsplit("::", 1)[-1]))
+        if not origins:
+            continue            # None schema (only row id / stats are updated)
+        n10 += 1
+        stale = sorted(o for o in origins if o[0] == "param")
+        cx.verdict(not stale and any(o[0] == "read" for o in origins), r10, "fresh-schema@" + (f.root or f.id).rsplit("::", 1)[-1], c.where(),
+                   "schema written back comes from %s" % sorted(o[1] for o in origins if o[0] == "read"),
+                   "%s writes back the schema of a Relation it was handed by its caller (%s): index and constraint registrations made earlier in the "
+                   "same statement are erased from the catalog row (a UNIQUE declared before the PRIMARY KEY loses its index)" % (f.id, stale or sorted(origins)))
+    if n10 == 0:
+        cx.bad(r10, "no-site", "", "no schema-writing update_relation call found in the DDL executor")
